@@ -149,8 +149,17 @@ func genHeader(r *hx.Rand, sum *hx.Summary) (http.Header, bool) {
 	for i := 0; i < nk; i++ {
 		k := r.Pick([]string{"Content-Type", "Etag", "X-Multi", "Cache-Control", "X-Café", "x-lower", "Vary", "Link"})
 		nv := 1 + r.Intn(3)
+		if r.Chance(15) { // a header that is present with an empty value (one or two of them)
+			h[k] = []string{""}
+			if r.Chance(30) {
+				h[k] = []string{"", ""}
+			}
+			sum.Count("header:empty-valued-key")
+			continue
+		}
 		for j := 0; j < nv; j++ {
-			v := r.Pick([]string{"text/html; charset=utf-8", "", "\"abc\"", "a, b", "<x>&y", "café", " line", "max-age=60", "日本語", "tab\there", "q\"uote\\"})
+			v := r.Pick([]string{"text/html; charset=utf-8", "", "\"abc\"", "a, b", "<x>&y", "café", " line", "max-age=60", "日本語", "tab\there", "q\"uote\\",
+				"del\x7f", "ctl\x01\x1f", "bell\a\v\f", "tag\U000E0067\U000E007F", "max\U0010FFFF", "para\u2029", "nbsp\u00a0", "\ufeffbom", "emoji\U0001F3F4"})
 			if r.Chance(3) {
 				v = "caf\xe9" // Latin-1 byte: legal obs-text, not valid UTF-8
 				nonUTF8 = true
